@@ -29,7 +29,9 @@ pub fn tetris_lib_of(v: &Value) -> t::library::Library {
     let cells: Vec<Ptr<t::cell::Cell>> = geta(v, "cells").iter().map(|c| Ptr::new(t::cell::Cell::new(gets(c, "name")))).collect();
     let find = |n: &str| geta(v, "cells").iter().position(|c| gets(c, "name") == n).map(|i| cells[i].clone()).expect("cell");
     for (i, c) in geta(v, "cells").iter().enumerate() {
-        let mut lay = t::layout::Layout::new(gets(c, "name"), geti(c, "metals") as usize, outline_of(&c["outline"]));
+        // a view's own name (optional "lname"; by default the cell's)
+        let vname = c.get("lname").and_then(|v| v.as_str()).unwrap_or(gets(c, "name"));
+        let mut lay = t::layout::Layout::new(vname, geti(c, "metals") as usize, outline_of(&c["outline"]));
         for inst in geta(c, "insts") {
             let (x, y) = ivec2(&inst["loc"]);
             lay.instances.add(t::instance::Instance { inst_name: gets(inst, "name").into(), cell: find(gets(inst, "cell")),
@@ -38,7 +40,7 @@ pub fn tetris_lib_of(v: &Value) -> t::library::Library {
         for a in geta(c, "assigns") { lay.assignments.push(t::stack::Assign::new(gets(a, "net"), cross_of(a))); }
         for a in geta(c, "cuts") { lay.cuts.push(cross_of(a)); }
         if c.get("view").and_then(|v| v.as_str()) == Some("abs") {
-            cells[i].write().unwrap().abs = Some(t::abs::Abstract::new(gets(c, "name"), geti(c, "metals") as usize, outline_of(&c["outline"])));
+            cells[i].write().unwrap().abs = Some(t::abs::Abstract::new(vname, geti(c, "metals") as usize, outline_of(&c["outline"])));
         } else {
             cells[i].write().unwrap().layout = Some(lay);
         }
